@@ -297,3 +297,65 @@ func gormChainRoot(v ssa.Value) ssa.Value {
 	}
 	return v
 }
+
+// compactParse: `_, err := jws.Parse(input, jws.WithCompact())` with err == nil — the input is a JWS in the compact
+// serialization. (jwt.Parse* also accept the JSON serialization, and for a JSON object that carries claim members next to
+// the JWS members they verify the embedded signature and then read the claims from the unsigned members.)
+func compactParse() Check {
+	const jwsPkg = "github.com/lestrrat-go/jwx/v2/jws"
+	c := ErrCheck(Fn(jwsPkg, "", "Parse"))
+	c.Desc = "jws.Parse(input, jws.WithCompact()) err == nil"
+	c.Filter = func(ci ssa.CallInstruction) bool {
+		for _, el := range VariadicElems(ci) {
+			if call, ok := StripConv(el).(*ssa.Call); ok && Fn(jwsPkg, "", "WithCompact").M(call.Common()) {
+				return true
+			}
+		}
+		return false
+	}
+	return c
+}
+
+// compactOnlyEverywhere: every production call of jwt.Parse / ParseString / ParseInsecure-less variants that VERIFIES
+// (no jwt.WithVerify(false) option) is reachable, in its function, only behind a compact-only JWS parse (directly or in a
+// helper that succeeds only through it).
+func compactOnlyEverywhere(r *Report, id string) {
+	p := r.P
+	const jwtPkg = "github.com/lestrrat-go/jwx/v2/jwt"
+	parse := AnyOf(Fn(jwtPkg, "", "Parse"), Fn(jwtPkg, "", "ParseString"), Fn(jwtPkg, "", "ParseReader"), Fn(jwtPkg, "", "ParseRequest"), Fn(jwtPkg, "", "ParseHeader"), Fn(jwtPkg, "", "ParseForm"))
+	verifies := func(ci ssa.CallInstruction) bool {
+		for _, el := range VariadicElems(ci) {
+			call, ok := StripConv(el).(*ssa.Call)
+			if !ok || !Fn(jwtPkg, "", "WithVerify").M(call.Common()) {
+				continue
+			}
+			if b, isB := ConstBool(CallArg(call.Common(), 0)); isB && !b {
+				return false
+			}
+		}
+		return true
+	}
+	n := 0
+	seen := map[*ssa.Function]bool{}
+	for _, s := range p.CallSites(parse, false) {
+		ci, ok := s.Instr.(ssa.CallInstruction)
+		if !ok || p.FileClass(p.FuncPos(s.Fn)) != "prod" || !verifies(ci) {
+			continue
+		}
+		n++
+		if seen[s.Fn] {
+			continue
+		}
+		seen[s.Fn] = true
+		eff := InstrEffect("verifying jwt.Parse*", func(in ssa.Instruction) bool {
+			c, ok := in.(ssa.CallInstruction)
+			return ok && parse.M(c.Common()) && verifies(c)
+		})
+		r.Gate(Gate{ID: id, Fn: s.Fn, Effect: eff, Check: compactParse(),
+			Note: "the claims that are validated must be the signed ones: only the compact serialization guarantees that with this library"})
+	}
+	r.Sites += n
+	if n < 4 {
+		r.Lost(id, "GATE: verifying jwt.Parse* calls are behind a compact-only JWS parse", fmt.Sprintf("%d verifying jwt.Parse* call(s) in production code (expected >= 4)", n))
+	}
+}
